@@ -175,7 +175,9 @@ fn payload(r: &mut Rng, sender_ver: u32) -> SerializedValue {
             let d = r.range(1, 5) as u32;
             gen_tree(r, d)
         } else {
-            let d = r.range(1, 31) as u32;
+            // nesting up to and, often, exactly at the limit (MAX_VALUE_DEPTH = 32): the converter has
+            // its own depth counter
+            let d = if r.chance(1, 3) { 32 } else { r.range(1, 32) as u32 };
             gen_chain(r, d)
         };
         // a peer that negotiated < 1.20 only produces the legacy encodings
